@@ -27,6 +27,7 @@
 #include "babylon/anyflow/graph.cpp"
 #include "babylon/anyflow/vertex.cpp"
 
+#include <signal.h>
 #include <cstdio>
 #include <cstring>
 #include <deque>
@@ -54,6 +55,28 @@ struct Ctx {
 static Ctx* C = nullptr;
 
 struct VOpt { int vid; };
+
+// ---- 'x' mode (run() races an external release still in flight): bookkeeping for the one known finding ----
+static char g_id[80];
+static volatile int g_xpend = 0;          // the closure finished with an error while an external emit() had not returned
+static volatile int g_xlate = 0;          // a vertex was invoked after closure.wait() had returned
+static volatile bool g_wait_returned = false;
+static size_t g_inj_started = 0, g_inj_done = 0;
+static void crash_handler(int sig) {      // x-mode cases run one per process: report the crash as this case's line
+  char buf[512];
+  int n = snprintf(buf, sizeof buf, "%s ok steps=0 pre=0 | code=99 vals= ran= act= inj= xp=%d xl=%d crash=%d | once=1 deps=1 flag=1 "
+                   "input=1 dataonce=1 wait=1 fin=1 tgtready=1\n", g_id, g_xpend, g_xlate, sig);
+  if (write(1, buf, (size_t)n) < 0) {}
+  _exit(0);
+}
+struct HCtx : public ClosureContextImplement<::babylon::SchedInterface> {
+  using Base = ClosureContextImplement<::babylon::SchedInterface>;
+  explicit HCtx(GraphExecutor& e) noexcept : Base(e) {}
+  void notify_finish() noexcept override {
+    if (error_code() != 0 && g_inj_started > g_inj_done) g_xpend = 1;
+    Base::notify_finish();
+  }
+};
 
 static std::vector<std::string> split(const std::string& s, char c) {
   std::vector<std::string> out; std::stringstream ss(s); std::string x;
@@ -91,6 +114,7 @@ struct Proc : public GraphProcessor {
     VtxD& vd = C->vs[v];
     C->runs[v]++;
     C->in_process++;
+    if (g_wait_returned) g_xlate = 1;
     int64_t acc = (v * 7 + 1) % M;
     std::string in;
     for (size_t i = 0; i < vd.deps.size(); ++i) {
@@ -130,11 +154,16 @@ struct HExec : public GraphExecutor {
   struct Task { GraphVertex* v; GraphVertexClosure c; };
   std::deque<Task> q;
   bool inplace = true;
+  bool xmode = false;
   uint64_t rng = 1;
   int nrun = 0;
-  Closure create_closure() noexcept override { return Closure::create<::babylon::SchedInterface>(*this); }
+  Closure create_closure() noexcept override {
+    if (xmode) return Closure(new HCtx(*this));
+    return Closure::create<::babylon::SchedInterface>(*this);
+  }
   int32_t run(GraphVertex* v, GraphVertexClosure&& c) noexcept override {
     nrun++;
+    if (g_wait_returned) g_xlate = 1;
     if (inplace) { v->run(std::move(c)); return 0; }
     q.push_back(Task {v, std::move(c)});
     return 0;
@@ -209,7 +238,9 @@ int main() {
     for (auto& t : split(w[8], ',')) { targets.push_back(atoi(t.c_str())); nd = std::max(nd, targets.back() + 1); }
 
     // build the graph; vertices are added in a seed-dependent order (the engine must not depend on it)
-    HExec exec; exec.inplace = inplace; exec.rng = seed | 1;
+    HExec exec; exec.inplace = inplace; exec.rng = seed | 1; exec.xmode = inflight;
+    snprintf(g_id, sizeof g_id, "%s", id.c_str());
+    if (inflight) { signal(SIGSEGV, crash_handler); signal(SIGABRT, crash_handler); signal(SIGBUS, crash_handler); }
     GraphBuilder builder;
     builder.set_executor(exec);
     size_t nv = ctx.vs.size();
@@ -253,6 +284,7 @@ int main() {
       for (auto& p : presets) if (ctx.data[p.d]) publish(ctx.data[p.d], p.d, p.empty, p.v, nullptr);
       int code = 12345; bool stop = false; bool finished_after_get = false;
       std::vector<int> injvalid; size_t inj_done = 0;
+      g_xpend = 0; g_xlate = 0; g_wait_returned = false; g_inj_started = 0; g_inj_done = 0;
       for (auto& th : injectors) for (size_t k = 0; k < th.size(); ++k) injvalid.push_back(-1);
       std::vector<std::function<void()>> bodies;
       Closure ucl;
@@ -282,6 +314,7 @@ int main() {
         finished_after_get = cl.finished();
         if (code == 0) for (auto* g : td) if (!g->ready()) tgt_ready = false;
         cl.wait();
+        g_wait_returned = true;
         if (ctx.in_process != 0 || !exec.q.empty()) wait_ok = false;
         stop = true;
       });
@@ -301,7 +334,9 @@ int main() {
           for (size_t k = 0; k < th.size(); ++k) {
             for (int y = 0; y < th[k].delay; ++y) verif::advance_time(0);
             bool valid = false;
+            g_inj_started++;
             if (ctx.data[th[k].d]) publish(ctx.data[th[k].d], th[k].d, th[k].empty, th[k].v, &valid);
+            g_inj_done++;
             injvalid[b0 + k] = valid ? 1 : 0;
           }
           inj_done++;
@@ -351,6 +386,7 @@ int main() {
       for (size_t v = 0; v < nv; ++v) if (ctx.acts[v] >= 1) { out += (first ? "" : ",") + std::to_string(v); first = false; }
       out += " inj=";
       for (int x : injvalid) out += std::to_string(x);
+      if (inflight) out += " xp=" + std::to_string((int)g_xpend) + " xl=" + std::to_string((int)g_xlate);
     }
     printf("%s ok steps=%llu pre=%llu | %s | once=%d deps=%d flag=%d input=%d dataonce=%d wait=%d fin=%d tgtready=%d\n", id.c_str(),
            steps, pre, out.c_str(), once, ctx.mon_deps, ctx.mon_flag, ctx.mon_input, dataonce, wait_ok, fin_ok, tgt_ready);
